@@ -52,6 +52,19 @@ Fixpoint rs_all {A} (f : A -> res bool) (l : list A) : res bool :=
 (* `a..b` as an iterator (evaluated once) *)
 Definition rs_range (a b : nat) : list nat := seq a (b - a).
 
+(* Vec as a list, the top of a stack at the END of the list (push = append) *)
+Definition rs_last {A} (l : list A) : option A :=
+  match rev l with x :: _ => Some x | [] => None end.
+Definition rs_unwrap {A} (o : option A) : res A := match o with Some a => Ok a | None => Panic site_expect end.
+(* `while !matches!(v.pop(), PAT) {}`: pop until the popped value satisfies [p] (or nothing is left); [p None] is
+   the test on an empty vector *)
+Fixpoint rs_pop_until_rev {A} (p : option A -> bool) (r : list A) : list A :=
+  match r with
+  | [] => []
+  | x :: t => if p (Some x) then t else rs_pop_until_rev p t
+  end.
+Definition rs_pop_until {A} (p : option A -> bool) (l : list A) : list A := rev (rs_pop_until_rev p (rev l)).
+
 (* slices *)
 Definition rs_index {A} (l : list A) (i : nat) : res A := get site_index l i.                 (* v[i] *)
 Definition rs_upd {A} (l : list A) (i : nat) (x : A) : res (list A) := upd site_index l i x.    (* v[i] = x *)
@@ -146,6 +159,7 @@ Definition rs_slice_from {A} (l : list A) (a : nat) : res (list A) :=
    of its scalar values (str), as in ModelText.v; the instances are built from the model's encodings. *)
 Record rs_text_source := {
   rs_char_len : N -> nat;                          (* T::char_len(c) *)
+  rs_text_len : list N -> nat;                     (* text.len() *)
   rs_chars : list N -> list N;                     (* text.chars() *)
   rs_char_indices : list N -> list (nat * N);      (* text.char_indices() *)
   rs_indices_lengths : list N -> list (nat * nat)  (* text.indices_lengths() *)
